@@ -20,34 +20,50 @@ def build_standin(d, *, control, cal, max_dt, sids=(), concrete=False, use_readi
     return build.compile_driver(d, RD.MAIN, includes=RD.INCLUDES, concrete=concrete, extra_flags=RD.flags(control=control, cal=cal, max_dt=max_dt, sids=sids, use_readings=use_readings), name=f"rt_{int(control)}{int(cal)}_{len(sids)}")
 
 
-def leaf_dts(leaf):
-    ks = sorted(int(m.group(1)) for nm in leaf.out for m in [re.match(r"dt(\d+)$", nm)] if m)
-    return [leaf.out[f"dt{k}"] for k in ks]
+def leaf_legs(outs):
+    """Split the recorded process_model dts into legs at the recorded sensor_model calls (call counter order)."""
+    ev = []
+    for nm in outs:
+        m = re.match(r"(dt|sens)(\d+)$", nm)
+        if m:
+            ev.append((int(m.group(2)), m.group(1), outs[nm]))
+    legs, cur = [], []
+    for _, kind, v in sorted(ev, key=lambda t: t[0]):
+        if kind == "sens":
+            legs.append(cur)
+            cur = []
+        else:
+            cur.append(v)
+    legs.append(cur)
+    return legs
 
 
-def float_steps_cpp(control, cal, max_dt, t0, t1):
+def float_steps_cpp(control, cal, max_dt, t0, t1, ts=()):
     d = build.workdir("c10r")
     try:
-        exe = build_standin(d, control=control, cal=cal, max_dt=max_dt, concrete=True)
-        outs, _, _ = build.run_concrete(exe, d, {"t0": t0, "out": t1, "s0": 0.0, "P0": 0.0, "cal": 0.0, "u": 0.0})
+        exe = build_standin(d, control=control, cal=cal, max_dt=max_dt, concrete=True, sids=[1] * len(ts))
+        ins = {"t0": t0, "out": t1, "s0": 0.0, "P0": 0.0, "cal": 0.0, "u": 0.0}
+        for i, t in enumerate(ts):
+            ins[f"ts{i}"] = t
+            ins[f"v{i}"] = 1.0
+        outs, _, _ = build.run_concrete(exe, d, ins)
     finally:
         build.cleanup(d)
-    ks = sorted(int(m.group(1)) for nm in outs for m in [re.match(r"dt(\d+)$", nm)] if m)
-    return [outs[f"dt{k}"] for k in ks]
+    return leaf_legs(outs)
 
 
-def cpp_task(control, cal, max_dt, K, tier, seed):
-    from .c10 import violates_float
+def cpp_task(control, cal, max_dt, K, tier, seed, nread=0):
+    from .c10 import violates_legs
 
     part = Part()
     part.program("ManagedFilter.h")
     part.fn("ManagedFilter<Impl>::tick", "ManagedFilter<Impl>::processUpdate")
-    key_base = f"cpp/control={int(control)}/cal={int(cal)}/max_dt={max_dt}/K={K}"
+    key_base = f"cpp/control={int(control)}/cal={int(cal)}/max_dt={max_dt}/K={K}/readings={nread}"
     variant = f"control={int(control)}/cal={int(cal)}"
     d = build.workdir("c10")
     try:
         try:
-            exe = build_standin(d, control=control, cal=cal, max_dt=max_dt)
+            exe = build_standin(d, control=control, cal=cal, max_dt=max_dt, sids=[1] * nread)
         except build.BuildError as ex:
             # confirm with plain double before reporting
             try:
@@ -62,9 +78,10 @@ def cpp_task(control, cal, max_dt, K, tier, seed):
     finally:
         build.cleanup(d)
     t0, t1 = z3.Real("t0"), z3.Real("out")
+    tsv = [z3.Real(f"ts{i}") for i in range(nread)]
     md = qval(max_dt)
-    assumes = [t0 >= -1000, t0 <= 1000, t1 >= -1000, t1 <= 1000]
-    delta = t1 - t0
+    assumes = [t0 >= -1000, t0 <= 1000, t1 >= -1000, t1 <= 1000] + [z3.And(t >= -1000, t <= 1000) for t in tsv]
+    delta = t1 - (tsv[-1] if tsv else t0)
     tmo = tier_timeout_ms(tier)
     feas = [l for l in leaves if solve(assumes + l.pc, 5000).status != "unsat"]
     part.d["paths"]["leaves"] += len(feas)
@@ -73,7 +90,8 @@ def cpp_task(control, cal, max_dt, K, tier, seed):
     reported = False
     kinds = {"forward": 0, "backward": 0, "none": 0}
     for li, l in enumerate(feas):
-        dts = leaf_dts(l)
+        legs = leaf_legs(l.out)
+        dts = legs[-1]
         pc = assumes + l.pc
         if not dts:
             kinds["none"] += 1
@@ -83,18 +101,25 @@ def cpp_task(control, cal, max_dt, K, tier, seed):
             if solve(pc + [delta < 0], 3000).status == "sat":
                 kinds["backward"] += 1
         claims = []
-        for i, dv in enumerate(dts):
-            claims.append((f"step{i} points in the direction of travel", z3.And(z3.Implies(delta > 0, dv > 0), z3.Implies(delta < 0, dv < 0), z3.Implies(delta == 0, False))))
-            claims.append((f"|step{i}| <= max_dt", z3.And(dv <= md, -dv <= md)))
-        tot = z3.RealVal(0)
-        for dv in dts:
-            tot = tot + dv
-        claims.append(("sum of steps within 1e-9 of the time difference", z3.And(tot - delta <= qval(TOL), delta - tot <= qval(TOL))))
+        cur = t0
+        for gi, (target, leg) in enumerate(zip(tsv + [t1], legs)):
+            dl = target - cur
+            for i, dv in enumerate(leg):
+                claims.append((f"leg{gi} step{i} points in the direction of travel", z3.And(z3.Implies(dl > 0, dv > 0), z3.Implies(dl < 0, dv < 0), z3.Implies(dl == 0, False))))
+                claims.append((f"leg{gi} |step{i}| <= max_dt", z3.And(dv <= md, -dv <= md)))
+            tot = z3.RealVal(0)
+            for dv in leg:
+                tot = tot + dv
+            claims.append((f"leg{gi} sum of steps within 1e-9 of the time difference", z3.And(tot - dl <= qval(TOL), dl - tot <= qval(TOL))))
+            cur = target
+        nsteps = sum(len(g) for g in legs)
         for nm, cl in claims:
             q = solve(pc + [z3.Not(cl)], tmo)
-            part.record(q, f"{key_base}/leaf{l.decisions or '-'}[{len(dts)} steps]: {nm}")
+            part.record(q, f"{key_base}/leaf{l.decisions or '-'}[{nsteps} steps]: {nm}")
             if q.status == "sat" and not reported:
                 vars_ = {"t0": t0, "out": t1}
+                for i, t in enumerate(tsv):
+                    vars_[f"ts{i}"] = t
                 cands = []
                 q2 = solve(pc + [z3.Not(cl)] + dyadic_box(vars_, -8, 8, 16), 10000)
                 if q2.status == "sat":
@@ -102,13 +127,14 @@ def cpp_task(control, cal, max_dt, K, tier, seed):
                 cands.append(env_from_model(q.model, vars_))
                 for e in cands:
                     part.d["witnesses"] += 1
-                    got = float_steps_cpp(control, cal, max_dt, e["t0"], e["out"])
-                    probs = violates_float(e["t0"], e["out"], max_dt, got)
+                    tsf = [e[f"ts{i}"] for i in range(nread)]
+                    got = float_steps_cpp(control, cal, max_dt, e["t0"], e["out"], tsf)
+                    probs = violates_legs(e["t0"], e["out"], max_dt, tsf, got)
                     if probs:
                         direction = "backward" if e["out"] < e["t0"] else "forward"
-                        key = f"cpp/processUpdate/{direction}/{variant}"
-                        path = write_replay(PID, {"key": key, "info": {"kind": "cpp", "control": control, "cal": cal, "max_dt": max_dt}, "inputs": {"t0": e["t0"], "t1": e["out"]}, "steps": got, "problems": probs})
-                        part.violation(key, f"C++ runtime ({variant}, max_dt={max_dt}): t0={e['t0']} -> t1={e['out']}: steps {got}: {probs[0]}", path)
+                        key = f"cpp/processUpdate/{direction}/{variant}" if nread == 0 else f"cpp/tick-with-reading/{direction}/{variant}"
+                        path = write_replay(PID, {"key": key, "info": {"kind": "cpp", "control": control, "cal": cal, "max_dt": max_dt}, "inputs": {"t0": e["t0"], "t1": e["out"]}, "ts": tsf, "steps": got, "problems": probs})
+                        part.violation(key, f"C++ runtime ({variant}, max_dt={max_dt}): t0={e['t0']} readings at {tsf} -> t1={e['out']}: steps per leg {got}: {probs[0]}", path)
                         reported = True
                         break
                 else:
@@ -127,11 +153,15 @@ def tasks(tier, seed):
     else:
         combos = [(c, k, m) for c in (True, False) for k in (True, False) for m in (0.05, 0.1, 0.5, 1.0 / 3.0)]
         K = 4
-    return [(cpp_task, (c, k, m, K, tier, seed)) for c, k, m in combos]
+    t = [(cpp_task, (c, k, m, K, tier, seed)) for c, k, m in combos]
+    t += [(cpp_task, (True, True, 0.1, 1, tier, seed, 1)), (cpp_task, (False, False, 0.25, 1, tier, seed, 1))]
+    if tier != "quick":
+        t += [(cpp_task, (True, False, 0.05, 2, tier, seed, 1)), (cpp_task, (False, True, 0.5, 2, tier, seed, 1))]
+    return t
 
 
 def replay(r):
-    from .c10 import violates_float
+    from .c10 import violates_legs
 
     info = r["info"]
     if info["kind"] == "cpp-compile":
@@ -146,8 +176,9 @@ def replay(r):
         print("not reproduced")
         return 0
     e = r["inputs"]
-    got = float_steps_cpp(info["control"], info["cal"], info["max_dt"], e["t0"], e["t1"])
-    probs = violates_float(e["t0"], e["t1"], info["max_dt"], got)
+    tsf = r.get("ts", [])
+    got = float_steps_cpp(info["control"], info["cal"], info["max_dt"], e["t0"], e["t1"], tsf)
+    probs = violates_legs(e["t0"], e["t1"], info["max_dt"], tsf, got)
     print("steps", got)
     if probs:
         print("REPRODUCED:", probs)
